@@ -16,6 +16,7 @@ from . import env as E
 PROP = 'C08'
 LEVEL = 'fault_enumeration'
 STEP_UNIT = 'call-back invocations (namespace values called by the renderer)'
+CHUNK = 8      # consecutive runs per forked child (core.worker)
 CASE_TIMEOUT = 300
 TIERS = {'quick': (12000, 170), 'thorough': (500000, 2400)}
 PROBES = ['fault_inside_pushed_block', 'handler_ran_after_fault',
